@@ -222,6 +222,7 @@ def check_links(net):
                 for m in lane.maneuvers:
                     if m.startLane is not lane:
                         V.add("maneuver:startLane", lane=lane.uid, got=uid(m.startLane))
+                check_lane_adjacent(V, lane)
         seen_lanes_net.extend(seen)
         if {id(x) for x in road.lanes} != {id(x) for x in seen} or len(road.lanes) != len(seen):
             V.add("ownership:road.lanes-vs-groups", road=road.uid, road_lanes=len(road.lanes),
@@ -326,6 +327,33 @@ def check_adjacent(V, sec):
             if getattr(x, back_opp) is not sec:
                 V.add(f"adjacent:{side}-not-reciprocal-opposite", section=sec.uid, other=uid(x),
                       back=uid(getattr(x, back_opp)))
+
+
+def check_lane_adjacent(V, lane):
+    """Lane.adjacentLanes ("adjacent lanes of same type, if any"; the statement lists adjacent
+    lanes among the reciprocal links): as a set it is the set of lanes owning the sections
+    adjacent to this lane's sections (LaneSection.adjacentLanes), every member is another lane
+    of the same road, and adjacency is mutual.  Multiplicity and order are not judged."""
+    adj = list(lane.adjacentLanes)
+    ids = {id(b) for b in adj}
+    exp = {}
+    for sec in lane.sections:
+        for s in sec.adjacentLanes:
+            if s.lane is not None:
+                exp[id(s.lane)] = s.lane
+    for b in adj:
+        if b is lane:
+            V.add("adjacent:lane-adjacent-to-itself", lane=lane.uid)
+        elif b.road is not lane.road:
+            V.add("adjacent:lane-adjacent-in-other-road", lane=lane.uid, other=uid(b))
+        elif not any(x is lane for x in b.adjacentLanes):
+            V.add("adjacent:lane-not-reciprocal", lane=lane.uid, other=uid(b),
+                  back=[uid(x) for x in b.adjacentLanes][:4])
+    missing = [uid(b) for k, b in exp.items() if k not in ids]
+    extra = [uid(b) for b in adj if id(b) not in exp]
+    if missing or extra:
+        V.add("adjacent:lane-vs-section-adjacency", lane=lane.uid, missing=missing[:4],
+              extra=extra[:4])
 
 
 def check_succ_pred(V, net, lanes):
